@@ -1021,6 +1021,19 @@ class Interp:
                 self.call_func(m[1], [e] + list(args), kwargs)
             return e
         o = Obj(ci)
+        if "NamedTuple" in ext:
+            names = ci.ann_fields
+            vals = list(args)
+            for i, nm in enumerate(names):
+                if i < len(vals):
+                    o.fields[nm] = vals[i]
+                elif nm in kwargs:
+                    o.fields[nm] = kwargs[nm]
+                elif nm in ci.attrs:
+                    o.fields[nm] = self.eval(ci.attrs[nm], Frame(None, ci.module))
+                else:
+                    self.raise_("TypeError", f"missing argument {nm}")
+            return o
         m = ci.find(self.repo, "__init__")
         if m and m[0] == "method":
             self.call_func(m[1], [o] + list(args), kwargs)
